@@ -345,9 +345,11 @@ pub(crate) fn rnd_i(n: &'_ Number, arena: &mut Arena) -> Result<Number, EvalErro
             let f = f.floor();
 
             const FIXNUM_MIN_TO_F: OrderedFloat<f64> = OrderedFloat(Fixnum::MIN as f64);
-            const FIXNUM_MAX_TO_F: OrderedFloat<f64> = OrderedFloat(Fixnum::MAX as f64);
+            // Fixnum::MAX itself is not representable as a double (it rounds up to
+            // Fixnum::MAX + 1), so compare against the first value that is out of range.
+            const FIXNUM_LIMIT_TO_F: OrderedFloat<f64> = OrderedFloat((Fixnum::MAX + 1) as f64);
 
-            if (FIXNUM_MIN_TO_F..=FIXNUM_MAX_TO_F).contains(&f) {
+            if (FIXNUM_MIN_TO_F..FIXNUM_LIMIT_TO_F).contains(&f) {
                 Ok(Number::Fixnum(
                     // Safety: We checked that the value is in range
                     unsafe { Fixnum::build_with_unchecked(f.into_inner() as i64) },
